@@ -767,6 +767,13 @@ static Subtree ts_parser__reuse_node(
     // later on in the file.
     if (ts_subtree_is_eof(result)) end_byte_offset = UINT32_MAX;
 
+    // The same holds for a node whose lookahead reached the end of the old
+    // input (the end of the old tree's last included range): the lexer saw
+    // the end of input there, which a range added later on would replace.
+    bool saw_end_of_input =
+      !ts_subtree_is_eof(result) &&
+      end_byte_offset + ts_subtree_lookahead_bytes(result) > ts_subtree_total_bytes(self->old_tree);
+
     if (byte_offset > position) {
       LOG("before_reusable_node symbol:%s", TREE_NAME(result));
       break;
@@ -800,7 +807,9 @@ static Subtree ts_parser__reuse_node(
                  byte_offset,
                  ts_subtree_is_eof(result)
                    ? end_byte_offset
-                   : end_byte_offset + ts_subtree_lookahead_bytes(result)
+                   : saw_end_of_input
+                     ? UINT32_MAX
+                     : end_byte_offset + ts_subtree_lookahead_bytes(result)
                )) {
       reason = "contains_different_included_range";
     } else if (
